@@ -1,5 +1,6 @@
 """C20 - ancillary tables are served to exactly the element or ion they belong to."""
 from contracts import ancillary as A
+from contracts import core as K
 
 ID = "C20"
 LEVEL = "proof"
@@ -12,13 +13,15 @@ EXPLANATION = ("Closed obligations (eval, exhaustive): every entry of the five a
 
 
 def units(tier):
-    return [A.U_FF0, A.U_FFN] + A.U_FXRAY_KEYS
+    return [A.U_FF0, A.U_FFN] + A.U_FXRAY_KEYS + [K.L_REGISTRATION]
 
 
 def runner_tasks(tier):
     return [{"module": "c20", "task": "eval_tables", "kind": "eval", "clause": "table entries, both tables"},
             {"module": "c05", "task": "f0", "kind": "eval", "clause": "x-ray form factor served per atom/ion (symbol+charge resolution), all 211 entries"},
-            {"module": "c20", "task": "formfactors", "kind": "bounded", "clause": "form factor values on a Q grid; Q=0 exhaustive"}]
+            {"module": "c20", "task": "formfactors", "kind": "bounded", "clause": "form factor values on a Q grid; Q=0 exhaustive"},
+            {"module": "c09", "task": "steps", "name": "first-touch steps", "kind": "eval", "arg": {"groups": ["covalent_radius", "crystal_structure", "emission", "magnetic_ff", "xray"]}, "clause": "every first touch of these data families (explicit init first included) serves the table entries", "timeout": 1500},
+            {"module": "c10", "task": "steps", "name": "private-table steps", "kind": "eval", "arg": {"modules": ["covalent_radius", "crystal_structure", "magnetic_ff", "xsf", "xsf_lines"]}, "clause": "private-table init of these modules: same entries, public untouched", "timeout": 1500}]
 
 
 REPLAY = {"module": "c20", "task": "replay"}
